@@ -132,6 +132,9 @@ class Interp:
 
     def assign(self, lhs, rhs):
         l, r = A.strip(lhs), A.strip(rhs)
+        if l.get('k') == 'ref' and l.get('dk') == 'local':
+            self.env[l['did']] = self.ev(rhs)
+            return self.env[l['did']]
         if r.get('k') == 'call' and A.callee(r) == 'std::move' and len(r.get('args', [])) == 1:
             r = A.strip(r['args'][0])
         if l.get('k') == 'un' and l.get('op') == '*' and r.get('k') == 'un' and r.get('op') == '*':
